@@ -35,16 +35,18 @@ type storeCfg struct {
 	fileSize    int
 	compression int
 	vlogCache   int // Options.VLogCacheSize (0 = no value cache)
+	rewind      bool // a pre-committed transaction is discarded and its tx-log space written over
 }
 
 var configs = []storeCfg{
-	{"v1-single", 1, false, 1, 256, appendable.NoCompression, 0},
-	{"v0-single-vcache", 0, false, 1, 200, appendable.NoCompression, 64},
-	{"v1-embedded-vcache", 1, true, 1, 300, appendable.NoCompression, 64},
-	{"v0-embedded", 0, true, 1, 4096, appendable.NoCompression, 0},
-	{"v1-multi", 1, false, 3, 128, appendable.NoCompression, 0},
-	{"v0-multi-vcache", 0, false, 2, 4096, appendable.NoCompression, 64},
-	{"v1-flate-vcache", 1, false, 1, 512, appendable.FlateCompression, 64},
+	{"v1-single", 1, false, 1, 256, appendable.NoCompression, 0, false},
+	{"v0-single-vcache", 0, false, 1, 200, appendable.NoCompression, 64, false},
+	{"v1-embedded-vcache", 1, true, 1, 300, appendable.NoCompression, 64, false},
+	{"v0-embedded", 0, true, 1, 4096, appendable.NoCompression, 0, false},
+	{"v1-multi", 1, false, 3, 128, appendable.NoCompression, 0, false},
+	{"v0-multi-vcache", 0, false, 2, 4096, appendable.NoCompression, 64, false},
+	{"v1-flate-vcache", 1, false, 1, 512, appendable.FlateCompression, 64, false},
+	{"v1-single-rewound", 1, false, 1, 160, appendable.NoCompression, 0, true},
 }
 
 // 0 embedded, 1 single value log, 2 several value logs (Tie.C09.vmode_of)
@@ -367,6 +369,39 @@ func build(cfg storeCfg, rng *rand.Rand) (*image, error) {
 			if err := tx.Set(key, md, randBytes(rng, vl)); err != nil {
 				return nil, err
 			}
+		}
+		if _, err := tx.Commit(ctx); err != nil {
+			return nil, err
+		}
+	}
+	if cfg.rewind {
+		// a big transaction is pre-committed only, then discarded; the next (small) commit rewinds the
+		// tx log to the discarded record's offset and writes over its beginning: before commit 09014a8
+		// the rest of the discarded record stayed in the files behind the new end of the log
+		st.SetExternalCommitAllowance(true)
+		tx, err := st.NewWriteOnlyTx(ctx)
+		if err != nil {
+			return nil, err
+		}
+		for e := 0; e < 4; e++ {
+			if err := tx.Set([]byte(fmt.Sprintf("zz%d", e)), nil, randBytes(rng, 40)); err != nil {
+				return nil, err
+			}
+		}
+		hdr, err := tx.AsyncCommit(ctx)
+		if err != nil {
+			return nil, err
+		}
+		if _, err := st.DiscardPrecommittedTxsSince(hdr.ID); err != nil {
+			return nil, err
+		}
+		st.SetExternalCommitAllowance(false)
+		tx, err = st.NewWriteOnlyTx(ctx)
+		if err != nil {
+			return nil, err
+		}
+		if err := tx.Set([]byte("kz"), nil, randBytes(rng, 3)); err != nil {
+			return nil, err
 		}
 		if _, err := tx.Commit(ctx); err != nil {
 			return nil, err
